@@ -577,14 +577,14 @@ def run(ctx: Ctx):
         cases.append((name, rec["cfg"] if rec.get("raw_keys") else _int_keys(rec["cfg"]), rec.get("digest_steps", 0)))
     # 2. generated families
     rng = ctx.rng.fork("scenarios")
-    n_gen = ctx.scale(15, 160)
+    n_gen = ctx.scale(15, 140)
     for k in range(n_gen):
         fam = G.FAMILIES[k % 3]
         cfg = G.gen_scenario(rng, size=1 + (k // 3) % 3, family=fam, shadowing=(k % 4 == 3), node_sets=False)
         cases.append((f"gen:{k}:{fam}", cfg, ctx.scale(10, 20) if k % ctx.scale(7, 5) == 0 else 0))
     # 2b. software matrix: every software type x non-default options x declared operating state of the node
     mrng = ctx.rng.fork("matrix")
-    for k in range(ctx.scale(10, 100)):
+    for k in range(ctx.scale(10, 90)):
         cfg = G.gen_software_matrix(mrng, size=1 + k % 3)
         cases.append((f"matrix:{k}", cfg, ctx.scale(8, 16) if k % ctx.scale(5, 4) == 0 else 0))
     # 3. shipped single-file scenarios
